@@ -201,6 +201,7 @@ func (s *Server) nextRequest() (func() error, error) {
 	for s.ch != nil && s.inq.IsEmpty() {
 		s.mu.Unlock()
 		<-s.work
+		verifPointS("srv.next.wake", "")
 		s.mu.Lock()
 	}
 	if s.ch == nil && s.inq.IsEmpty() {
@@ -225,7 +226,9 @@ func (s *Server) nextRequest() (func() error, error) {
 func (s *Server) waitForBarrier(n int) {
 	s.mu.Unlock()
 	defer s.mu.Lock()
+	verifPointS("srv.barrier.wait", "")
 	s.nbar.Wait()
+	verifPointS("srv.barrier.add", "")
 	s.nbar.Add(n)
 }
 
@@ -248,6 +251,7 @@ func (s *Server) dispatchLocked(next jmessages, ch sender) func() error {
 	s.waitForBarrier(notes)
 
 	return func() error {
+		verifPointS("srv.dispatch.run", tasks.verifKey())
 		var wg sync.WaitGroup
 		for _, t := range tasks {
 			if t.err != nil {
@@ -286,6 +290,7 @@ func (s *Server) deliver(rsps jmessages, ch sender, elapsed time.Duration) error
 		return nil
 	}
 	s.log("Completed %d requests [%v elapsed]", len(rsps), elapsed)
+	verifPoint("srv.deliver.lock", rsps[0].ID)
 	s.mu.Lock()
 	defer s.mu.Unlock()
 
@@ -378,13 +383,16 @@ func (s *Server) setContext(t *task, id string) {
 // the return value into JSON if there is one.
 func (s *Server) invoke(base context.Context, h Handler, req *Request) (json.RawMessage, error) {
 	ctx := context.WithValue(base, serverKey{}, s)
+	verifPoint("srv.invoke.acquire", req.params)
 	if err := s.sem.Acquire(ctx, 1); err != nil {
 		return nil, err
 	}
 	defer s.sem.Release(1)
 
+	verifPoint("srv.invoke.run", req.params)
 	s.rpcLog.LogRequest(ctx, req)
 	v, err := h(ctx, req)
+	verifPoint("srv.invoke.done", req.params)
 	if err != nil {
 		if req.IsNotification() {
 			s.log("Discarding error from notification to %q: %v", req.Method(), err)
@@ -463,6 +471,7 @@ func (s *Server) Callback(ctx context.Context, method string, params any) (*Resp
 // response, deliver an error to the caller.
 func (s *Server) waitCallback(pctx context.Context, id string, p *Response) {
 	<-pctx.Done()
+	verifPointS("srv.waitcb.lock", id)
 	s.mu.Lock()
 	defer s.mu.Unlock()
 	if _, ok := s.call[id]; !ok {
@@ -487,6 +496,7 @@ func (s *Server) pushReq(ctx context.Context, wantID bool, method string, params
 		}
 		bits = v
 	}
+	verifPointS("srv.push.lock", method)
 	s.mu.Lock()
 	defer s.mu.Unlock()
 	if s.ch == nil {
@@ -528,6 +538,7 @@ func (s *Server) pushReq(ctx context.Context, wantID bool, method string, params
 // is safe to call this method multiple times or from concurrent goroutines; it
 // will only take effect once.
 func (s *Server) Stop() {
+	verifPointS("srv.stop.lock", "")
 	s.mu.Lock()
 	defer s.mu.Unlock()
 	s.stopLocked(errServerStopped)
@@ -644,6 +655,7 @@ func (s *Server) read(ch receiver) {
 			derr = in.parseJSON(bits)
 			rpcRequestsCount.Add(int64(len(in)))
 		}
+		verifPoint("srv.read.recv", bits)
 		s.mu.Lock()
 		if err != nil { // receive failure; shut down
 			s.stopLocked(err)
@@ -837,6 +849,7 @@ func (ts tasks) numToDo() (todo, notes int) {
 // CancelRequest instructs s to cancel the pending or in-flight request with
 // the specified ID. If no request exists with that ID, this is a no-op.
 func (s *Server) CancelRequest(id string) {
+	verifPointS("srv.cancel.lock", id)
 	s.mu.Lock()
 	defer s.mu.Unlock()
 	if s.cancelLocked(id) {
